@@ -1,7 +1,10 @@
 #!/bin/bash
 # every thorough check once, sequentially (background validation of the thorough tier on the clean tree)
+# usage: thorough_all.sh [ID ...]
 python3 check/setup.py > /dev/null 2>&1
-for p in C13 C14 C15 C12 C09 C10 C11 C16 C17 C02 C05 C07 C08 C04 C06 C01 C03; do
+ids="$@"
+[ -z "$ids" ] && ids="C13 C14 C15 C12 C09 C10 C11 C16 C17 C02 C05 C07 C08 C04 C06 C01 C03"
+for p in $ids; do
   s=$(date +%s)
   out=$(nice -n 5 python3 check/check.py $p --tier thorough 2>&1 | grep -v "^KNOWN\|^WARNING" | tail -2)
   echo "$p rc=$? $(( $(date +%s) - s ))s :: $out"
